@@ -426,7 +426,13 @@ class Gen:
     def tree_name(self, short=True):
         n = self.r.choice([1, 2, 3, 5, 12]) if short else self.r.choice([30, 100, 255, 256])
         alpha = [c for c in range(0x21, 0x100) if c != 0x2f]
-        return bytes(self.r.choice(alpha) for _ in range(n))
+        while True:
+            nm = bytes(self.r.choice(alpha) for _ in range(n))
+            # every entry point canonicalises names (pack file, tar) or takes them from readdir, which skips them:
+            # "." and ".." never reach fstree_add_generic as a component.  (The library would accept such a node, and
+            # `mknode` canonicalises a hard link's *target*: corpus/C01/units-boundaries.ops pins both.)
+            if nm not in (b".", b".."):
+                return nm
 
     def file_spec(self):
         r = self.r
